@@ -178,7 +178,7 @@ CLAIMED.update({
   'design_ref': 'DESIGN.md section 5 (C04)',
   'note': 'Trusted: Verus/Z3, vstd BTreeMap / iterator specs, A-name; A-graph (registry evaluate methods meet the closure contracts), R8g (RwLock guards dropped, lock poisoning not modelled), A-eval (the logic\'s value is a function '
           'of the entries of the context it runs over), A-ctx (Default / clone / into Scope / coerced as named stubs). Not decided: the builder part outside the closure (which references are collected, which logic is built), '
-          'the service-as-function body closure, boxed expression evaluators beyond invocation / function definition (unit purity), name clashes between requirements.',
+          'the builder parts outside the closures (reference lists, formal parameter order), boxed expression evaluators beyond invocation / function definition (unit purity), name clashes between requirements.',
   'technique': 'contract-based deductive verification: Verus requires/ensures/loop invariants on the decision evaluator closure lifted mechanically from /repo and on FeelContext::set_entry / zip / overwrite; '
                'bounded differential stand-in (labelled bounded) for whole requirement graphs',
  },
